@@ -157,6 +157,7 @@ var (
 	runGen int64
 
 	simProcs    int
+	prefer      int32 = -1
 	procsLoaded bool
 
 	abortHook func(kind string, detail string)
@@ -465,6 +466,18 @@ collect:
 	}
 	p := next(&picks)
 	nxt := run[int(p%uint32(n))]
+	if pf := prefer; pf >= 0 {
+		// at the start of a goroutine: half of the decisions go to the newborn
+		// (consulted once: the preference must not outlive this decision)
+		prefer = -1
+		if p != 0 && tstate[pf] == stRunnable {
+			if p%2 == 1 {
+				nxt = pf
+			} else {
+				nxt = run[int((p/2)%uint32(n))]
+			}
+		}
+	}
 	if nxt == cur {
 		return
 	}
@@ -948,6 +961,13 @@ func Go(fn func()) {
 	st.Spawned++
 	ntasks++
 	go taskMain(i, runGen)
+	// Starting a goroutine is a scheduling edge like a lock operation: the tape
+	// may hand the turn to another task (the new one, say) right here, so that
+	// "the child ran to its end before the parent took its next step" is as
+	// reachable as "the parent went on".
+	prefer = i
+	edge(5)
+	prefer = -1
 }
 
 // errNotPanic marks "no panic" in tpanic.
